@@ -3,6 +3,7 @@
   axioms it depends on. Run with `lake env lean Audit.lean`; output lines
   `THM <module> <theorem> <axioms…>` are parsed by bin/check.
 -/
+import Lean
 import ArcheProofs
 open Lean
 
